@@ -160,6 +160,9 @@ type RunCtx struct {
 
 var cur *RunCtx
 
+// opsExecuted counts operations actually run by Execute (evidence).
+var opsExecuted int
+
 // execHashes, when non-nil (determinism self-test), collects a hash of the
 // complete outcome of every execution.
 var execHashes *[]uint64
@@ -340,6 +343,7 @@ func Execute(sc *Scenario, sched *simrt.Schedule) (out *Outcome) {
 			op = &cp
 		}
 		runOp(w, b, op, &res)
+		opsExecuted++
 		res.Ticks = w.Ticks
 		res.Fd1, res.Fd2 = BStr(w.Fd1.Data), BStr(w.Fd2.Data)
 		res.Calls = ctx.calls
